@@ -29,6 +29,13 @@ CHECKS = {
          "and every negotiated parameter must lie in both raw policies per an independent model using the IANA table; failed handshakes must fail with an alert on at least one side and never one-sidedly complete.",
          "own credential type enabled in own settings (caller precondition); settings.versions never set directly; private _send/_recv_record_limit attributes read for the record-limit agreement",
          "DESIGN.md §4 C03"),
+ "C06": ("fault_enumeration",
+         "fault enumeration over message traces: every single skip/duplicate/swap/insert/replace deviation of 12 honest handshake flavours replayed by a well-keyed deviant peer, judged by an independent order-legality model; drawn deviation pairs",
+         "For each (flavour, deviant side) the honest trace (handshake messages + ChangeCipherSpec) is replayed with one deviation - all positions x {skip, duplicate, swap} and x {insert, replace} with a 13-message pool - the deviant's transcript "
+         "following what it really sends (so Finished would verify if the victim swallowed the deviation). A type-level legality model classifies the sequence the honest endpoint receives; illegal or truncated handshake parts must never complete, "
+         "late illegal messages must kill the connection on the next read; post-handshake ClientHello/HelloRequest/ServerHello/Finished/CCS must never start a second handshake; handshake calls on an open connection must raise ValueError.",
+         "order only: content validity of same-typed replacements is C04/C05; stalls count as not completed",
+         "DESIGN.md §4 C06"),
  "C08": ("exploration",
          "structure-aware mutation fuzzing through a well-keyed deviant peer + Hypothesis byte-level targets; oracle = exception-type / alert / closed / non-resumable / no-spin / bounded-memory clauses",
          "Every handshake message of 12 honest handshake flavours (SSLv3..TLS 1.3, RSA/DHE/ECDHE/anon/SRP, client auth, HRR, tickets, ALPN/NPN/SNI) is mutated before protection by a deviant peer (byte flips, truncation/extension with "
